@@ -30,6 +30,43 @@ def op_magic2int(c):
         return err(e)
 
 
+ERRCODE = {"EOFError": 1, "ValueError": 2, "error": 3, "IndexError": 4, "KeyError": 5, "TypeError": 6,
+           "UnicodeDecodeError": 7, "UnicodeEncodeError": 7, "AssertionError": 8, "AttributeError": 9, "RuntimeError": 10,
+           "ImportError": 11, "RecursionError": 12, "MemoryError": 13, "OverflowError": 14, "StopIteration": 15,
+           "ZeroDivisionError": 16}
+
+
+def errobs(e):
+    return [1, ERRCODE.get(type(e).__name__, 50)]
+
+
+def opt(x):
+    return [0] if x is None else [1, int(x)]
+
+
+class _KeepOpen(io.BytesIO):
+    """BytesIO whose close() records the position instead of closing."""
+    final_pos = None
+
+    def close(self):
+        if self.final_pos is None:
+            self.final_pos = self.tell()
+
+
+def op_header(c):
+    """c = {"bytes": [...], "name38": bool}; observation list mirrors Model/LoadObs.v:obs_header"""
+    from xdis.load import load_module_from_file_object
+    data = bytes(c["bytes"])
+    fp = _KeepOpen(data)
+    name = "x.pypy38.pyc" if c.get("name38") else "x.pyc"
+    try:
+        t = load_module_from_file_object(fp, filename=name, get_code=False)
+    except Exception as e:
+        return errobs(e)
+    tv = [int(x) for x in t[0]]
+    return [0, len(tv)] + tv + opt(t[1]) + [int(t[2]), 1 if t[4] else 0] + opt(t[5]) + opt(t[6]) + [len(data) - fp.final_pos]
+
+
 OPS = {k[3:]: v for k, v in list(globals().items()) if k.startswith("op_")}
 
 
